@@ -1866,8 +1866,11 @@ def note_array_from_part_list(
             part_na[0]["divs_pq"] for part_na in note_array if len(part_na)
         ]
         lcm = np.lcm.reduce(divs_per_parts)
-        time_multiplier_per_part = [int(lcm / d) for d in divs_per_parts]
-        for na, time_mult in zip(note_array, time_multiplier_per_part):
+        for na in note_array:
+            if len(na) == 0:
+                # parts without notes have no divs_pq entry (and nothing to rescale)
+                continue
+            time_mult = int(lcm // na[0]["divs_pq"])
             na["onset_div"] = na["onset_div"] * time_mult
             na["duration_div"] = na["duration_div"] * time_mult
             na["divs_pq"] = na["divs_pq"] * time_mult
